@@ -205,8 +205,10 @@ func (t *c07Tuple) top(p *profile.Profile, col int) Term {
 
 // observe runs pprof's own fetch path (fetchProfiles) and report path (generateRawReport +
 // report.TextItems) on the tuple.  Every report is produced from a freshly fetched profile, as
-// each pprof invocation does; the second list is produced from the result saved with -proto
-// (Profile.Write) and reopened (profile.Parse).
+// each pprof invocation does.  The second list is the three-step history of the statement:
+// (1) fetch with the flags, (2) save with the real `-proto` command (driver generateReport ->
+// report.New -> report.Generate(Proto)/printProto of the report's own profile -> output file),
+// (3) reopen the saved bytes (profile.Parse) and build the -top report again.
 func (t *c07Tuple) observe() (obs Term) {
 	defer func() {
 		if r := recover(); r != nil {
@@ -222,12 +224,15 @@ func (t *c07Tuple) observe() (obs Term) {
 	if err != nil {
 		return L(S("err"), S(c07ErrEnum(err.Error(), t.normalize)))
 	}
-	var buf bytes.Buffer
-	if err := p.Write(&buf); err != nil {
-		return L(S("err"), S("write:"+err.Error()))
-	}
-	saved := buf.Bytes()
 	dump := c07DumpMerged(p)
+	ps, err := fetch()
+	if err != nil {
+		return L(S("err"), S("refetch:"+err.Error()))
+	}
+	saved, err := driver.VerifC07SaveProto(ps)
+	if err != nil {
+		return L(S("err"), S("saveproto:"+err.Error()))
+	}
 	var direct, reopened []Term
 	for col := range p.SampleType {
 		q, err := fetch()
